@@ -1493,10 +1493,11 @@ func gridLayout(context *layoutContext, box_ Box, bottomSpace pr.Float, skipStac
 				if breakRow >= len(rowsPositions) {
 					continue
 				}
-			} else if i == 0 {
+			} else if i == 0 || breakRow <= skipRow {
+				// no row fits below the content already on the page : the grid goes to
+				// the next page (an empty fragment resumed at the same row would be a
+				// page without progress when the caller takes it for content, as table cells do)
 				return nil, blockLayout{nil, nil, tree.PageBreak{Break: "any"}, false}
-			} else if breakRow < skipRow {
-				breakRow = skipRow
 			}
 			resumeRow = breakRow
 			resumeAt = tree.ResumeStack{breakRow: nil}
